@@ -77,7 +77,7 @@ def run (np : Nat) (numKind : String) (fixed : Bool) (re : String) (toks : List 
       addCopyAt w t.rank t.g t.attr (500 + t.g).toNat known) w1
   let num : Option (Int → Nat) :=
     if numKind = "c" then some (fun g => (1000 + g).toNat) else if numKind = "d" then some (fun _ => 2 ^ 64 - 1) else none
-  let hide := numKind = "s" ∧ !fixed
+  let hide := numKind = "s"
   let cs0 := List.replicate np 0
   let r1 := syncStep num w2 cs0
   let callsOf (cs : List Nat) (p : Nat) : Option Nat := if numKind = "s" then some (cs.getD p 0) else none
